@@ -256,7 +256,7 @@ def _rest(ctx, prog, f, S, st):
         atoms = q.controlling_atoms(hh, c)
         for a, pol in atoms:
             s = a.strip(casts=True)
-            if s.k == 'BinaryOperator' and s.op == '==' and pol and q.member_value_of(s.children[0], S + '_state') and \
+            if s.k == 'BinaryOperator' and ((s.op == '==' and pol) or (s.op == '!=' and pol is False)) and q.member_value_of(s.children[0], S + '_state') and \
                     s.children[1].strip(casts=True).value == st['st_test_request_sent']:
                 ok = True
     ctx.check(ok, 'R22.3', S + 'handle_heartbeat#resume', hh.loc, 'inbound Heartbeat in state test_request_sent returns to continuous')
